@@ -189,7 +189,7 @@ def run_case(ctx, case):
     i = case['i']
     rng = ctx.rng('gen', i)
     text, truth = itpspec.gen_top(rng, n=int(rng.integers(1, 30)), repeated=(i % 3 == 0), decorate=(i % 4 != 0),
-                                  trailing=('plain', 'single', 'empty', 'multiple', 'hash', 'nospace', 'multiple-last-empty', 'semicolons-only'))
+                                  trailing=('plain', 'single', 'empty', 'multiple', 'hash', 'nospace', 'multiple-last-empty', 'semicolons-only', 'hash-nospace'))
     path = os.path.join(_tmp['dir'], f'g{os.getpid()}.itp')
     with open(path, 'w') as fh:
         fh.write(text)
